@@ -11,7 +11,7 @@ theorem runBase_shift (v : BitVec 64) (bp j : Nat) (h : bp + j < 32) :
   have e1 : KSpec.runBase (v <<< (2 * bp)) j = Kmer.get k32 (v <<< (2 * bp)) j := by
     unfold KSpec.runBase Kmer.get Kmer.addr
     have : 62 - 2 * j = (k32.K - 1 - j) * 2 := by simp [k32]; omega
-    rw [this]; rfl
+    rw [this]
   have g1 := Kmer.get_bits k32_wf (s := (v <<< (2 * bp) : BitVec 64)) j
   have g2 := Kmer.get_bits k32_wf (s := v) (bp + j)
   have a1 : Kmer.addr k32 j = 62 - 2 * j := by simp [Kmer.addr, k32]; omega
@@ -29,7 +29,6 @@ theorem runBase_shift (v : BitVec 64) (bp j : Nat) (h : bp + j < 32) :
   refine g1.trans (Eq.trans ?_ g2.symm)
   show 2 * ((v <<< (2 * bp) : BitVec 64).getLsbD (62 - 2 * j + 1)).toNat + ((v <<< (2 * bp) : BitVec 64).getLsbD (62 - 2 * j)).toNat = _
   rw [b1, b2]
-  rfl
 
 theorem toSeq_getElem (c : Cfg) (s : St c) (q : Nat) (hq : q < c.K) : (Kmer.toSeq c s)[q]? = some (Kmer.get c s q) := by
   simp [Kmer.toSeq, hq]
